@@ -565,7 +565,7 @@ impl IndexTable {
 	}
 
 	pub fn validate_plan(&self, index: u64, log: &mut LogReader) -> Result<()> {
-		if index >= self.id.total_entries() {
+		if index >= self.id.total_chunks() {
 			return Err(Error::Corruption("Bad index".into()))
 		}
 		let mut buf = [0u8; 8];
